@@ -3,6 +3,7 @@ package checks
 import (
 	"fmt"
 	"strings"
+	"sync"
 	"sync/atomic"
 
 	"github.com/jrhy/mast"
@@ -86,36 +87,36 @@ func runFOp(w *world.World, t *mast.Mast, op fOp, aux *mast.Mast) (world.Res, st
 			}
 			return err
 		case "CursorMin", "CursorMax", "CursorCeil", "CursorMinFwd", "CursorMaxBack":
+			// a navigation sequence is a list of steps on one cursor; lastCursorRun remembers where
+			// it stopped so that the failing step can be retried on the very same cursor
+			cr := &cursorRun{}
 			cur, err := t.Cursor(ctx)
 			if err != nil {
 				return err
 			}
+			cr.cur = cur
 			switch op.name {
 			case "CursorMin":
-				err = cur.Min(ctx)
+				cr.steps = []func() error{func() error { return cur.Min(ctx) }}
 			case "CursorMax":
-				err = cur.Max(ctx)
+				cr.steps = []func() error{func() error { return cur.Max(ctx) }}
 			case "CursorCeil":
-				err = cur.Ceil(ctx, cfg.Key(op.k))
+				cr.steps = []func() error{func() error { return cur.Ceil(ctx, cfg.Key(op.k)) }}
 			case "CursorMinFwd":
-				if err = cur.Min(ctx); err == nil {
-					for i := 0; i <= op.k && err == nil; i++ {
-						err = cur.Forward(ctx)
-					}
+				cr.steps = []func() error{func() error { return cur.Min(ctx) }}
+				for i := 0; i <= op.k; i++ {
+					cr.steps = append(cr.steps, func() error { return cur.Forward(ctx) })
 				}
 			case "CursorMaxBack":
-				if err = cur.Max(ctx); err == nil {
-					for i := 0; i <= op.k && err == nil; i++ {
-						err = cur.Backward(ctx)
-					}
+				cr.steps = []func() error{func() error { return cur.Max(ctx) }}
+				for i := 0; i <= op.k; i++ {
+					cr.steps = append(cr.steps, func() error { return cur.Backward(ctx) })
 				}
 			}
+			lastCursorRun.Store(w, cr)
+			err = cr.resume()
 			if err == nil {
-				k, _, ok := cur.Get()
-				obs = fmt.Sprintf("%v", ok)
-				if ok {
-					obs += fmt.Sprintf(":%d", keyIndex(cfg, k))
-				}
+				obs = cr.obs(cfg)
 			}
 			return err
 		}
@@ -123,6 +124,34 @@ func runFOp(w *world.World, t *mast.Mast, op fOp, aux *mast.Mast) (world.Res, st
 	})
 	return res, obs
 }
+
+// cursorRun is a resumable navigation sequence on one cursor.
+type cursorRun struct {
+	cur   *mast.Cursor
+	steps []func() error
+	next  int
+}
+
+func (c *cursorRun) resume() error {
+	for c.next < len(c.steps) {
+		if err := c.steps[c.next](); err != nil {
+			return err // c.next still points at the failing step: "the same call retried"
+		}
+		c.next++
+	}
+	return nil
+}
+
+func (c *cursorRun) obs(cfg *world.Config) string {
+	k, _, ok := c.cur.Get()
+	o := fmt.Sprintf("%v", ok)
+	if ok {
+		o += fmt.Sprintf(":%d", keyIndex(cfg, k))
+	}
+	return o
+}
+
+var lastCursorRun sync.Map // *world.World -> *cursorRun
 
 func newValPtrC(c *world.Config) interface{} { return world.NewValPtr(c) }
 func derefValC(p interface{}) interface{}    { return world.DerefVal(p) }
@@ -290,8 +319,19 @@ func c12State(run *report.Run, cfg *world.Config, hist []world.Op, acc *pairAcc,
 					Detail: fmt.Sprintf("error %v; before %v size=%d height=%d; after %v size=%d height=%d", res.Err, preC, preSize, preH, c1, s1, h1)}}, desc)
 				continue
 			}
-			// retry after the fault has cleared
-			res2, obs2 := runFOp(w, t, op, aux)
+			// retry after the fault has cleared; a cursor navigation is retried on the same cursor
+			var res2 world.Res
+			var obs2 string
+			if cr, ok := lastCursorRun.Load(w); ok && strings.HasPrefix(op.name, "Cursor") && cr.(*cursorRun).next > 0 {
+				c := cr.(*cursorRun)
+				res2 = guardRes(c.resume)
+				if res2.Err == nil && res2.Panic == nil {
+					obs2 = c.obs(cfg)
+				}
+			} else {
+				res2, obs2 = runFOp(w, t, op, aux)
+			}
+			lastCursorRun.Delete(w)
 			c2, s2, h2 := treeView(w, t)
 			if (res2.Err != nil) != (res0.Err != nil) || res2.Panic != nil || obs2 != obs0 || !c2.Equal(postC) || s2 != postSize || h2 != postH {
 				acc.add(cfg, "C12", []explore.Finding{{Sig: fmt.Sprintf("C12|%s|retry-differs|%s|%s", op.name, errOrigin(res.Err), resClass(res2)),
